@@ -9,6 +9,7 @@ import Vita.C07.Lemmas
 import Vita.C07.StreamLemmas
 import Vita.C07.CodeLemmas
 import Vita.C07.EngineLemmas
+import Vita.C07.RandomLemmas
 import Vita.C07.Gen
 namespace Vita.C07
 open Vita.Rng
@@ -192,7 +193,49 @@ theorem stream_after_roundtrip_code (c : Cfg) (h : Demanded c) (a b : Xo) :
       ∀ n, genNth (words r) n = genNth (words a) n :=
   ⟨a, cfg_state_roundtrip c h a b, fun _ => rfl⟩
 
+/-! ### vita::random: ranges
+
+Integral draws go through libstdc++'s `uniform_int_distribution` (Lemire's method, modelled in
+Vita/Common/Rng.lean and compared bit for bit with the compiled functions); floating-point draws are
+`canonical * (sup - min) + min` with a rounding after every operation: `Rounding` states the IEEE hypotheses used
+(round-to-nearest is monotone and the identity on representable numbers).  `[min, sup)` holds for the
+integral functions; for doubles `min ≤ x` always, `x ≤ sup` when `sup - min` is computed exactly, and `x < sup`
+for every draw iff it holds for the largest canonical value (it does not for e.g. `between(1.0, 2.0)`: the
+differential run constructs that draw, see design/C07.md). -/
+
+/-- `random::between<integral>(min, sup)`, `random::in(range)`: `min ≤ x < sup` for every engine state -/
+theorem between_int_in_range (min sup : Int) (e : Xo) (h : min < sup) (hw : sup - min ≤ 2 ^ 64) :
+    min ≤ (between min sup e).1 ∧ (between min sup e).1 < sup := between_in_range min sup e h hw
+/-- `random::sup(n)` -/
+theorem sup_below (n : Nat) (e : Xo) (h : 0 < n) (hw : n ≤ 2 ^ 64) : (sup n e).1 < n := sup_lt n e h hw
+/-- `random::element(c)`: the index drawn is inside the container -/
+theorem element_in_bounds (size : Nat) (e : Xo) (h : 0 < size) (hw : size ≤ 2 ^ 64) :
+    (elementIdx size e).1 < size := sup_lt size e h hw
+/-- `random::ring(base, width, n)` stays in `[0, n)` -/
+theorem ring_below (base width n : Nat) (e : Xo) (hn : 1 < n) (hn32 : n ≤ 2 ^ 32) :
+    (ring base width n e).1 < n := ring_lt base width n e hn hn32
+/-- `random::between<floating>(min, sup)`: never below `min` -/
+theorem between_real_lower (R : Rounding) (a b c : Rat) (ha : R.rep a) (hab : a ≤ b) (hc : 0 ≤ c) :
+    a ≤ betweenQ R a b c := betweenQ_ge R a b c ha hab hc
+/-- … not above `sup` when the width `sup - min` is representable -/
+theorem between_real_upper (R : Rounding) (a b c : Rat) (hb : R.rep b) (hw : R.rnd (b - a) = b - a)
+    (hab : a ≤ b) (hc : c ≤ 1) : betweenQ R a b c ≤ b := betweenQ_le R a b c hb hw hab hc
+/-- … monotone in the canonical value: `x < sup` for all draws iff for the largest canonical value -/
+theorem between_real_strict_of_max (R : Rounding) (a b c cmax : Rat) (hab : a ≤ b) (hc : c ≤ cmax)
+    (hmax : betweenQ R a b cmax < b) : betweenQ R a b c < b := betweenQ_lt_of_max R a b c cmax hab hc hmax
+/-- `random::boolean(0)` is never true, `random::boolean(1)` always (canonical values lie in `[0, 1)`) -/
+theorem boolean_zero (c : Rat) (hc : 0 ≤ c) : booleanQ 0 c = false := by
+  simp [booleanQ]; exact Rat.not_lt.mpr hc
+theorem boolean_one (c : Rat) (hc : c < 1) : booleanQ 1 c = true := by
+  simp [booleanQ, hc]
+
 /-! ### non-vacuity -/
+/-- exact arithmetic is a `Rounding` -/
+def exactRounding : Rounding := ⟨id, fun _ _ h => h, fun _ => True, fun _ _ => rfl, trivial⟩
+example : (1 : Rat) ≤ betweenQ exactRounding 1 3 1 :=
+  between_real_lower exactRounding 1 3 1 trivial (by decide) (by decide)
+example : betweenQ exactRounding 1 3 1 ≤ 3 :=
+  between_real_upper exactRounding 1 3 1 trivial rfl (by decide) (by decide)
 example : U.seedOf GenCode.prog 0 (words ⟨7, 7, 7, 7⟩) = some (words (Xo.seed Xo.defSeed)) := by
   rw [gen_seed_eq]; rfl
 example : U.rotlOf GenCode.prog 1 64 = none := by decide
